@@ -340,7 +340,10 @@ def check(ctx):
                 pk = key[0][1:]
                 # map callee generic param to the caller's argument via F's generic args
                 fa = k["F_args"]
-                okk = rk and rk[0][0] == "TypeId::of" and len(fa) >= 1 and fa[0] == rk[0][1]
+                # the key inside the table method is TypeId::of of its *bare* type parameter (not of a wrapper such as React<C>),
+                # instantiated by register() with the parameter reactor_type() reports
+                bare = len(pk) == 1 and re.fullmatch(r"\w+", pk[0]) is not None
+                okk = rk and rk[0][0] == "TypeId::of" and len(fa) >= 1 and fa[0] == rk[0][1] and bare
                 ctx.check(bool(okk), "C01.a", "%s:same-key-type" % nm, where,
                           "table keyed by TypeId::of::<%s>() = reactor_type() key" % (fa[:1],),
                           "register() keys the table by TypeId::of::<%s>() (instantiated with %s) but reactor_type() reports %s" % (pk, fa, rk))
@@ -348,6 +351,13 @@ def check(ctx):
                 ctx.check(nm == "DespawnTrigger" or key is not None, "C01.a", "%s:key-understood" % nm, where, "key %s" % (key,), "table key not understood")
             leaf = (fields[0][1], fields[1][1] if len(fields) > 1 else None)
             have = table_loops.get(leaf, [])
+            # the dispatch side looks the entry up under the same kind of key (bare type parameter / same origin kind)
+            for (body_, L_, ev_, src_) in have:
+                skeys = [kk for kk in (src_[3] or ()) if kk and kk[0] == "TypeId::of"]
+                for kk in skeys:
+                    ctx.check(len(kk) == 2 and re.fullmatch(r"\w+", kk[1]) is not None, "C01.a", "%s:dispatch-key-is-bare-type-parameter" % nm, body_.loc(L_.driver),
+                              "dispatch looks %s up under TypeId::of::<%s>()" % (leaf, kk[1:]),
+                              "dispatch looks %s up under TypeId::of::<%s>() while registration / revocation key by the bare component type" % (leaf, kk[1:]))
             ctx.check(bool(have), "C01.a", "%s:dispatched" % nm, where, "%d dispatch loop(s) iterate %s" % (len(have), leaf),
                       "no dispatch loop iterates %s" % (leaf,))
             # component kinds: the variant queued by the dispatch loop equals the variant revoke maps to this sub-list
@@ -460,6 +470,11 @@ def check(ctx):
             ctx.check(L.driver is not None and not L.exits, "C01.b", "ReactCache::%s:loop@%s:no-early-exit" % (nm, driver_tag(m, L)), m.loc(L.header),
                       "loop has no exit other than exhaustion", "a loop of the polled scheduler can be left early (pending removals/despawns would be dropped)")
 
+    # ---- C01.g every queued reaction command runs exactly once, also when postponed by recursion (shared with C02) ----
+    import core as _core2
+    import c02
+    ng = _core2.adopt(ctx, c02, lambda o: o["rule"] in ("C02.a", "C02.c", "C02.d"), "C01.g")
+    ctx.floor("C01.g", ng, 40, "shared runner obligations (C02.a/c/d)")
     # ---- C01.e no live registration is lost as a side effect of a revocation (shared with C06.f) ----
     import core as _core
     import c06, c14
